@@ -8,7 +8,8 @@
   Helpers: Proofs/C03.lean (model = spec), C03Field.lean (ZMod p / ZMod n reading of the Nat arithmetic,
   square roots, −7 not a cube), C03Group.lean (`SecpGroupLaw`, curve points as a group, k·P), C03Curve.lean
   (`SecpGroupLaw` from Mathlib's Weierstrass group), C03Ecdsa.lean (sign/verify/recover), C03Der.lean
-  (DER), C03Schnorr.lean (BIP340 signing), C03Recover.lean (recovery on arbitrary input, nonce x ≥ n).
+  (DER), C03Schnorr.lean (BIP340 signing), C03Recover.lean (recovery on arbitrary input, nonce x ≥ n),
+  C03Tweak.lean (internal key + tweak = ∞).
 -/
 import GocoinV.Proofs.C03
 import GocoinV.Proofs.C03Field
@@ -18,6 +19,7 @@ import GocoinV.Proofs.C03Ecdsa
 import GocoinV.Proofs.C03Der
 import GocoinV.Proofs.C03Schnorr
 import GocoinV.Proofs.C03Recover
+import GocoinV.Proofs.C03Tweak
 namespace GocoinV.Props.C03
 open GocoinV GocoinV.Secp GocoinV.Model GocoinV.C03 GocoinV.Proofs.C03
 
@@ -38,6 +40,9 @@ def twQ : Bytes := [47, 1, 229, 225, 92, 202, 53, 29, 175, 243, 132, 63, 183, 15
 def twBase : Bytes := [249, 48, 138, 1, 146, 88, 195, 16, 73, 52, 79, 133, 248, 157, 82, 41, 181, 49, 200, 69, 131, 111, 153, 176, 134, 1, 241, 19, 188, 224, 54, 249]
 def twHashPlusN : Bytes := [255, 255, 255, 255, 255, 255, 255, 255, 255, 255, 255, 255, 255, 255, 255, 254, 186, 174, 220, 230, 175, 72, 160, 59, 191, 210, 94, 140, 208, 54, 65, 70]
 def twParity : Bool := false
+/-- x(G) as an x-only internal key (G has even y, so lift_x gives G = 1·G), and the tweak n − 1 -/
+def gx32 : Bytes := [121, 190, 102, 126, 249, 220, 187, 172, 85, 160, 98, 149, 206, 135, 11, 7, 2, 155, 252, 219, 45, 206, 40, 217, 89, 242, 129, 91, 22, 248, 23, 152]
+def nMinus1 : Bytes := [255, 255, 255, 255, 255, 255, 255, 255, 255, 255, 255, 255, 255, 255, 255, 254, 186, 174, 220, 230, 175, 72, 160, 59, 191, 210, 94, 140, 208, 54, 65, 64]
 /-- 04 ‖ 1 ‖ 1 : not on the curve -/
 def pkOff : Bytes := 4 :: (zero32.take 31 ++ [1] ++ zero32.take 31 ++ [1])
 /-- 02 ‖ 0 : x = 0 has no square root of x³+7 -/
@@ -88,6 +93,29 @@ theorem schnorr_accept_iff (H : Hash) (pk sig msg : Bytes) :
 theorem tweak_accept_iff (qx base hash : Bytes) (parity : Bool) :
     Sig.checkPayToContract qx base hash parity = Spec.TapTweak.check qx base hash parity :=
   tweak_eq qx base hash parity
+
+/-- BIP341 "fail if Q is the point at infinity": if the lifted internal key is d·G (any d ≤ n) and the
+    tweak is n − d, then lift_x(P) + t·G = n·G = ∞ (group law of the reference curve) and
+    `btc.CheckPayToContract` (model of the current code) refuses the commitment for EVERY claimed output
+    key and parity bit — in particular the claims an implementation would be left comparing had it
+    tested only t·G (or nothing) for infinity: the internal key's own x with either parity, x(t·G), 0.
+    The harness offers exactly these claims to the real code (inf.go, classes tweak/infinity-claim-*)
+    and ties the helper `XY.ECPublicTweakAdd` itself to A + t·G (op tweakadd). -/
+theorem tweak_infinity_refused (qx base hash : Bytes) (parity : Bool) (d : Nat) (hdn : d ≤ n)
+    (hP : liftX (beVal base) = mul d G) (ht : beVal hash = n - d) :
+    Sig.checkPayToContract qx base hash parity = false :=
+  tweak_cancel_false qx base hash parity d hdn hP ht
+
+/-- non-vacuity: internal key x(G), d = 1, tweak n − 1; the claim "output key = internal key, odd
+    parity" is refused (as is every other one). -/
+example : Sig.checkPayToContract gx32 gx32 nMinus1 true = false ∧
+    Sig.checkPayToContract gx32 gx32 nMinus1 false = false ∧
+    Sig.checkPayToContract zero32 gx32 nMinus1 false = false := by
+  have h1 : (1 : Nat) ≤ n := by decide
+  have hP : liftX (beVal gx32) = mul 1 G := by decide +kernel
+  have ht : beVal nMinus1 = n - 1 := by decide +kernel
+  exact ⟨tweak_infinity_refused _ _ _ _ 1 h1 hP ht, tweak_infinity_refused _ _ _ _ 1 h1 hP ht,
+    tweak_infinity_refused _ _ _ _ 1 h1 hP ht⟩
 
 /-- `XY.ParsePubkey` (current code) is strict SEC1 parsing (`Secp.parsePubkey`): same accepted set,
     same point. -/
